@@ -234,6 +234,138 @@ def stream_expand_stub(ctx: Ctx) -> Stream:
 
 
 # ---------------------------------------------------------------------------------------------
+# object identity: shared reflection objects, to_temporary, writes through the copy
+
+INode = tuple  # (id, key, [INode])
+
+
+def gen_iforest(rng: random.Random, depth: int, width: int, keys: list[str], share: float) -> list[INode]:
+	"""forest of object specs; with probability `share` a slot holds an object that already sits in an earlier slot"""
+	pool: list[INode] = []
+	counter = [0]
+
+	def node(d: int) -> INode:
+		if pool and rng.random() < share:
+			return rng.choice(pool)
+		i = counter[0]
+		counter[0] += 1
+		n_children = rng.randint(1, width) if d > 1 and rng.random() < 0.65 else 0
+		n = (i, rng.choice(keys), [node(d - 1) for _ in range(n_children)])
+		pool.append(n)
+		return n
+	return [node(depth) for _ in range(rng.randint(1, width))]
+
+
+def iforest_sexp(f: list[INode]) -> str:
+	def node(n: INode) -> str:
+		i, k, cs = n
+		return f'( {i}:{hx(k)} )' if not cs else f"( {i}:{hx(k)} {' '.join(node(c) for c in cs)} )"
+	return ' '.join(node(n) for n in f) if f else '-'
+
+
+def ierase(f: list[INode]) -> Forest:
+	return [(k, ierase(cs)) for _, k, cs in f]
+
+
+def build_iobjects(entries: dict[str, Any], f: list[INode], memo: dict[int, Any]) -> list[Any]:
+	"""real reflections; the same spec id = the same Python object"""
+	out = []
+	for i, k, cs in f:
+		if i not in memo:
+			r = entries[k].stack()
+			if cs:
+				r.extends(*build_iobjects(entries, cs, memo))
+			memo[i] = r
+		out.append(memo[i])
+	return out
+
+
+def dump_iobjects(objs: list[Any], ids: dict[int, int], fresh: list[int]) -> list[INode]:
+	"""observable tree with object numbers: known objects keep theirs, unseen ones are numbered in pre-order from fresh[0]"""
+	out = []
+	for o in objs:
+		if id(o) not in ids:
+			ids[id(o)] = fresh[0]
+			fresh[0] += 1
+		n = ids[id(o)]
+		out.append((n, o.types.fullyname, dump_iobjects(list(o.attrs), ids, fresh)))
+	return out
+
+
+def reachable_ids(objs: list[Any], acc: set[int]) -> set[int]:
+	for o in objs:
+		acc.add(id(o))
+		reachable_ids(list(o.attrs), acc)
+	return acc
+
+
+def valid_write_paths(t: INode, prefix: str = '') -> list[str]:
+	out = []
+	for j, c in enumerate(t[2]):
+		p = f'{prefix}.{j}' if prefix else str(j)
+		out.append(p)
+		out.extend(valid_write_paths(c, p))
+	return out
+
+
+def stream_identity_stub(ctx: Ctx) -> Stream:
+	import rogw.tranp.lang.sequence as seqs
+	rng = ctx.sub_rng('identity-stub')
+	traits = StubTraits()
+	cases = []
+	for i in range(ctx.scale(150, 1500)):
+		entries, _ = stub_classes(rng, traits, rng.randint(2, 6))
+		keys = list(entries)
+		f = gen_iforest(rng, 2 + i % 4, 1 + i % 3, keys, share=[0.0, 0.25, 0.5][i % 3])
+		memo: dict[int, Any] = {}
+		objs = build_iobjects(entries, f, memo)
+		ops, real = [], []
+		# expand on objects that may sit in several slots
+		try:
+			flat = seqs.expand(objs, iter_key='attrs')
+			r = flat_text({p: a.types.fullyname for p, a in flat.items()})
+		except Exception as e:  # noqa: BLE001
+			r = exc_enum(e)
+		ops.append(f'expandi\t{iforest_sexp(f)}')
+		real.append(r)
+		# to_temporary of the first object, then one write through the copy
+		entry_spec, entry = f[0], objs[0]
+		ids = {id(o): n for n, o in memo.items()}
+		n0 = max(memo) + 1
+		try:
+			t = entry.to_temporary()
+			tdump = dump_iobjects([t], ids, [n0])[0]
+			r = iforest_sexp([tdump])
+		except Exception as e:  # noqa: BLE001
+			t, tdump, r = None, None, exc_enum(e)
+		ops.append(f'temp\t{iforest_sexp([entry_spec])}\t{n0}')
+		real.append(r)
+		if t is not None:
+			paths = valid_write_paths(tdump)
+			for _ in range(3):
+				# a fresh copy per write: the entry must stay what it was
+				t2 = entry.to_temporary()
+				ids2 = {id(o): n for n, o in memo.items()}
+				dump_iobjects([t2], ids2, [n0])
+				p = rng.choice(paths) if paths and rng.random() < 0.85 else rng.choice([*paths, '0']) + f'.{rng.randint(0, 3)}'
+				val = entries[rng.choice(keys)].stack()
+				ids2[id(val)] = 900
+				try:
+					seqs.update(t2.attrs, p, val, iter_key='attrs')
+					r = f'E {iforest_sexp(dump_iobjects([entry], ids2, [1000]))} T {iforest_sexp(dump_iobjects([t2], ids2, [1000]))}'
+				except Exception as e:  # noqa: BLE001
+					r = exc_enum(e)
+				ops.append(f'write\t{iforest_sexp([entry_spec])}\t{n0}\t{p}\t( 900:{hx(val.types.fullyname)} )')
+				real.append(r)
+		shared = len(memo) < forest_size(ierase(f))
+		cases.append(({'shared': shared, 'depth': forest_depth(ierase(f))}, ops, real))
+	st = common.correspond('identity-stub', cases, FAMILY, classify=lambda d: f"{'shared' if d['shared'] else 'tree'}:depth={d['depth']}")
+	st.note = ('real Reflection objects, one object possibly in several slots: seqs.expand vs model expandI; Reflection.to_temporary vs model toTemp '
+		'(which objects are new); seqs.update through the copy vs model setSlot, observed on the entry and on the copy by object number')
+	return st
+
+
+# ---------------------------------------------------------------------------------------------
 # stream: rebuild-stub
 
 
@@ -604,6 +736,32 @@ def search_stub_laws(ctx: Ctx) -> SearchResult:
 				found('stub:rebuild', f'_deserialize_attrs(flatten f) shows {forest_sexp(back)[:200]} for f = {forest_sexp(f)[:200]}', rep)
 		except Exception as e:  # noqa: BLE001
 			found(f'stub:rebuild:raises:{exc_enum(e)}', str(e)[:200], rep)
+		# (b2) shared objects: expand per slot; to_temporary makes new objects at every depth, writes through it never reach the entry
+		try:
+			fi = gen_iforest(rng, 2 + i % 4, 1 + i % 3, keys, share=0.4)
+			memo: dict[int, Any] = {}
+			objs = build_iobjects(entries, fi, memo)
+			rep_i = {'iforest': iforest_sexp(fi)}
+			flat = seqs.expand(objs, iter_key='attrs')
+			got = {p: a.types.fullyname for p, a in flat.items()}
+			if list(got.items()) != list(py_flatten(ierase(fi)).items()):
+				found('stub:expand-shared', f'seqs.expand on shared objects differs from the per-slot pre-order walk: {flat_text(got)[:200]} vs {flat_text(py_flatten(ierase(fi)))[:200]}', rep_i)
+			entry = objs[0]
+			before = obs_forest([entry])
+			t = entry.to_temporary()
+			if obs_forest([t]) != before:
+				found('stub:temporary-shows-other', f'to_temporary shows {forest_sexp(obs_forest([t]))[:200]} for {forest_sexp(before)[:200]}', rep_i)
+			common_ids = reachable_ids([t], set()) & reachable_ids(objs, set())
+			if common_ids:
+				found('stub:temporary-shares', f'to_temporary shares {len(common_ids)} object(s) with the entry', rep_i)
+			for p in valid_write_paths(dump_iobjects([t], {}, [0])[0]):
+				t2 = entry.to_temporary()
+				seqs.update(t2.attrs, p, entries[rng.choice(keys)].stack(), iter_key='attrs')
+				if obs_forest([entry]) != before:
+					found('stub:temporary-write-leaks', f'seqs.update(copy.attrs, {p!r}, …) changed the entry: {forest_sexp(obs_forest([entry]))[:200]} was {forest_sexp(before)[:200]}', {**rep_i, 'path': p})
+					break
+		except Exception as e:  # noqa: BLE001
+			found(f'stub:identity:raises:{exc_enum(e)}', str(e)[:200], {'iforest': iforest_sexp(fi)})
 		# (c) table laws on a table in dependency order
 		if i % 2:
 			continue
@@ -1420,13 +1578,24 @@ STATEMENTS = {
 	'C14.order_statement (def)': 'for every Loaded table (references are keys, in-module type keys are class symbols, class symbols do not refer to themselves through their attributes, via is another module\'s key or an own type key) and non-empty module: no exported row refers to a key of the module that is not exported earlier',
 	'C14.order': 'order_statement is a theorem for _order_keys_recursive after fix 95feeba (fuel = number of table keys + 1 is shown sufficient under the rank hypothesis)',
 	'C14.rt_loaded': 'SymOK + Loaded alone give: import succeeds, restores every key of M, completes M, and a second import changes nothing',
+	'C14.order_fuel': 'fuel sufficiency for EVERY table (also self-/mutually-referring class entries): any fuel ≥ number of keys + 1 gives the same walk — resolving is duplicate-free and inside the keys (pigeonhole)',
+	'C14.importable_acyclic': 'rows importable in the listed order carry a rank that decreases along every reference between them',
+	'C14.cyclic_unimportable': 'two rows that refer to each other cannot be imported in any order: the acyclicity hypothesis of C14.order is necessary',
+	'C14.rebuild_isolated': '_deserialize_attrs on a prefix-closed dict never walks into (never extends in place) an attribute object of a table entry: the out-of-model case is unreachable',
+	'C14.export_prefixClosed': 'what serialize writes is prefix-closed',
+	'C14.deserialize_isolated': 'deserialize of any exported row, against any table, never reaches the out-of-model case',
+	'C14.expand_shared': 'seqs.expand on objects with identity (one object in several slots) = expand of what they show: shared sub-forests are exported once per slot',
+	'C14.attrs_rt_shared': 'attrs_rt for DAG-shaped forests: import rebuilds a tree that shows the same forest',
+	'C14.visited_counterexample': 'expand with a visited-set of object ids loses the children of the second slot of a shared object; the import then shows another forest (regression of a seeded mutation)',
+	'C14.to_temporary_isolated': 'to_temporary shows the same forest, consists of new objects at every depth, and no sequence of writes into the copy (seqs.update slots) changes the entry',
+	'C14.shallow_temporary_counterexample': 'a copy that shares attributes without a type variable among their direct children leaks a depth-3 write into the entry (regression of a seeded mutation)',
 }
 
 
 def run(ctx: Ctx) -> int:
 	proof = common.prove(ctx, PROP, leanchecker=ctx.thorough)
 	with ctx.timed('correspondence'):
-		streams = [stream_expand_stub(ctx), stream_rebuild_stub(ctx), stream_order_stub(ctx), stream_table_stub(ctx)]
+		streams = [stream_expand_stub(ctx), stream_identity_stub(ctx), stream_rebuild_stub(ctx), stream_order_stub(ctx), stream_table_stub(ctx)]
 	with ctx.timed('real_pass(correspondence+search)'):
 		real_streams, law = real_pass(ctx)
 	streams += real_streams
@@ -1436,7 +1605,7 @@ def run(ctx: Ctx) -> int:
 		statements=STATEMENTS,
 		partial={
 			'proved': 'attribute flattening / rebuilding round trip for every forest; grouping fact; import idempotence; completed; table round trip under SymOK; the export-order law for every Loaded table (repaired algorithm)',
-			'correspondence_only': 'loaded tables satisfy SymOK and Loaded (evaluated on every real table, stream invariants-real); termination fuel of the order walk on tables with self-referring class entries (stream order-stub)',
+			'correspondence_only': 'loaded tables satisfy SymOK and Loaded (evaluated on every real table, stream invariants-real); non-prefix-closed dicts against entries with attributes (walk into a shared entry) stay outside the model',
 		},
 		assumptions=[
 			"index path components are what str(index) produces (ASCII digits, no sign, no leading zero); other spellings accepted by int() are never generated",
